@@ -30,8 +30,10 @@ CONSTANTS
     Crashers,      \* members whose sender lives in a process that may be killed between two system calls
     StopAfterTorn, \* TRUE: after a torn message (its sender died mid-way) the member is not drained any
                    \* further in this select (wrong: the hang-up edge is already consumed); FALSE: the code
-    SendersFirst   \* TRUE: explore only behaviours in which the selecting thread starts after every sender
+    SendersFirst,  \* TRUE: explore only behaviours in which the selecting thread starts after every sender
                    \* has finished (bulk already queued when the set first looks)
+    LateMembers    \* members whose channel is created only when the program adds it (after earlier members may
+                   \* have closed and left the set: descriptor numbers get reused): their senders start after the add
 
 VARIABLES
     mq,        \* mq[m]: queued first packets of member m: sequence of [x, n]  (x = message index)
@@ -250,11 +252,12 @@ SelectRet ==
 
 SelectorStep == Add \/ WaitCall \/ WaitWake \/ DrainAttempt \/ DrainFollow \/ DrainFollowTorn \/ SelectRet
 SendersDone == \A m \in Members : spc[m] \in {"done", "dead"}
-Next == \/ \E m \in Members : SenderStep(m) \/ Kill(m)
+Next == \/ \E m \in Members : (m \in LateMembers => m \in inset \/ ids[m] # 0) /\ (SenderStep(m) \/ Kill(m))
         \/ (SendersFirst => SendersDone) /\ (SelectorStep \/ Intr)
 
 Spec == Init /\ [][Next]_vars
-FairSpec == Spec /\ WF_vars((SendersFirst => SendersDone) /\ SelectorStep) /\ \A m \in Members : WF_vars(SenderStep(m))
+FairSpec == Spec /\ WF_vars((SendersFirst => SendersDone) /\ SelectorStep)
+            /\ \A m \in Members : WF_vars((m \in LateMembers => m \in inset \/ ids[m] # 0) /\ SenderStep(m))
 
 -----------------------------------------------------------------------------
 (* Properties *)
